@@ -79,6 +79,9 @@ RULES = {
     "R26": _get(XR, "r26_engine_control"),
     "R27": _get(XR, "r27_slot_identity"),
     "R28": _get(XR, "r28_stateless_gradient_descent"),
+    "R42": _get(XR, "r42_writeback_gated"),
+    "R43": _get(XR, "r43_gradients_taken_on_every_path"),
+    "R44": _get(XR, "r44_stateless_derivative"),
     "R29": _get(SR, "r29_matmul_adjoint_shapes"),
     "R31": _get(SR, "r31_reduce_last"),
     "R30": _get(GR, "r30_conv_geometry"),
@@ -105,14 +108,14 @@ PROPERTY_RULES = {
     "C07": ["R35", "R16"],
     "C08": ["R1", "R2", "R3", "R4", "R7"],
     "C09": ["R8", "R9", "R10", "R5"],
-    "C10": ["R23", "R20", "R25", "R9", "R11", "R10", "R26", "R24"],
+    "C10": ["R23", "R20", "R25", "R9", "R11", "R10", "R26", "R24", "R44"],
     "C11": ["R24", "R5", "R27", "R6", "R26"],
     "C12": ["R5", "R27", "R3", "R6", "R7", "R17", "R23"],
-    "C13": ["R21", "R22", "R28"],
-    "C14": ["R21", "R28", "R22", "R20", "R24", "R23"],
+    "C13": ["R21", "R22", "R28", "R42", "R43"],
+    "C14": ["R21", "R28", "R22", "R20", "R24", "R23", "R42", "R43"],
     "C15": ["R34"],
     "C16": ["R16", "R3", "R17", "R41"],
-    "C17": ["R13", "R14", "R26"],
+    "C17": ["R13", "R14", "R26", "R44"],
     "C18": ["R20", "R21", "R7", "R8"],
     "C19": ["R19"],
 }
@@ -183,7 +186,7 @@ EXPLANATION = {
            "drops are silent (R7); equality ignores "
            "per-handle state (R17); only the engine and the gradient accessors write the per-node slots every clone shares, so a "
            "per-handle method (tracked / untracked / ...) cannot change what the other handles see (R23).",
-    "C13": "Clause-level static verdict: the value installed over a parameter is a fresh, graph-free, gradient-free, same-shape, "
+    "C13": "(R42: parameters are overwritten only under a per-parameter selection - the gradient's presence or a mask element; R43: the gradient-taking code is reached on every path through update.) Clause-level static verdict: the value installed over a parameter is a fresh, graph-free, gradient-free, same-shape, "
            "tracked array built by the public constructor (R21); the traversal that fills the frozen-mask / flat buffers and the one that "
            "consumes them visit the same parameters in a consistent order and select the same subset (R22); the optimizer has no "
            "interior-mutable state, so an update cannot depend on earlier ones (R28). Does NOT decide the arithmetic old - lr*g.",
@@ -203,7 +206,7 @@ EXPLANATION = {
            "applied to the right arguments in the right order; does NOT decide what matmul / conv compute (C05 / C06).",
     "C16": "(R41: the multi-index -> flat index fold is the row-major position for every rank 1..4 and every pattern of unit dimensions, evaluated on symbolic lists in an exact algebra.) Clause-level static verdict: all refusal clauses via the constructor funnel and its dominating assertions plus no later "
            "write (R16,R3), and equality reads exactly dimensions and values as a conjunction (R17). Does NOT decide index arithmetic.",
-    "C17": "Clause-level static verdict: linearity type system over every built-in backward closure and the engine's delta path "
+    "C17": "(R44: a derivative closure stores nothing computed from its adjoint into captured interior-mutable state.) Clause-level static verdict: linearity type system over every built-in backward closure and the engine's delta path "
            "(R13); default seed is ones of the root's shape (R14); no engine branch reads adjoint values (R26). Over the reals; user closures out of scope.",
     "C18": "Clause-level static verdict: ownership-edge inventory (R20), fresh graph-free parameters (R21), no destructors (R7), and a result of untracked operands records nothing (R8): the deltas built inside derivative closures - whose operands are untracked while they run - and hence the stored gradients are graph-free, so gradient slots cannot close a cycle.",
     "C19": "Clause-level static verdict: the f32 build is the f64 build with the float type substituted (body-by-body MIR "
